@@ -72,7 +72,9 @@ theorem cleanup_len (cfg : Cfg) (res : List Nat) (snap cur : List Conn) (closing
       · exact Nat.le_trans (ih _ _) (erase_length_le cur c)
       · split
         · exact Nat.le_trans (ih _ _) (erase_length_le cur c)
-        · exact ih _ _
+        · split
+          · exact Nat.le_trans (ih _ _) (erase_length_le cur c)
+          · exact ih _ _
 
 theorem assignOne_len (cfg : Cfg) (s : State) (r : Req) (h : s.conns.length ≤ cfg.maxConn) :
     (assignOne cfg s r).1.conns.length ≤ cfg.maxConn := by
